@@ -51,12 +51,13 @@ def offending_sites():
     rc, text = lean_eval(
         "import Cog.Det.Review\nopen Cog Cog.Det\n"
         "#eval IO.println (String.intercalate \"\\n\" (offending.map (fun s => s!\"SITE {s.file}:{s.func} line={s.line} kind={repr s.kind} effects={repr s.effects} unreviewed_callees={s.callees.filter (fun c => !calleeOK c)} ptrKey={s.ptrKey}\")))\n"
+        "#eval IO.println (String.intercalate \"\\n\" ((Gen.shallowCopies.filter (fun f => !f.outsideRun && !allowedShallowCopies.contains (f.func, f.what))).map (fun f => s!\"SHALLOW {f.file}:{f.func} does not deep-copy {f.what} (the language loop in Pipeline.Run relies on per-language copies)\")))\n"
         "#eval IO.println (String.intercalate \"\\n\" (offendingImpure.map (fun f => s!\"IMPURE {f.file}:{f.func} {f.what}\")))\n"
         "#eval IO.println (String.intercalate \"\\n\" ((Gen.mapRangeSites.filter (fun s => s.known && !s.outsideRun)).map (fun s => s!\"KNOWN-SITE {s.file}:{s.func}\")))\n"
         "#eval IO.println s!\"KNOWN-PRESENT {(Gen.mapRangeSites.filter (fun s => s.known && !s.outsideRun)).length} of {knownNondeterministic.length}\"\n")
     if rc != 0:
         return None, text[-2500:]
-    return [l for l in text.split("\n") if l.startswith(("SITE ", "IMPURE ", "KNOWN-PRESENT ", "KNOWN-SITE "))], ""
+    return [l for l in text.split("\n") if l.startswith(("SITE ", "IMPURE ", "SHALLOW ", "KNOWN-PRESENT ", "KNOWN-SITE "))], ""
 
 
 def parse_reply(reply):
@@ -207,7 +208,7 @@ def main():
     if off is None:
         c.oblige("Cog.Det.Review builds against the regenerated table", False, off_err)
         off = []
-    bad_sites = [l for l in off if l.startswith(("SITE ", "IMPURE "))]
+    bad_sites = [l for l in off if l.startswith(("SITE ", "IMPURE ", "SHALLOW "))]
     c.cov["known_sites_present"] = next((l for l in off if l.startswith("KNOWN-PRESENT")), "")
     c.oblige("every map-range site is outside a run, proved admissible, reviewed, or a listed known site", not bad_sites, bad_sites)
     c.lean_obligations(THEOREMS, targets=("Cog.Props.C03",))
@@ -252,4 +253,8 @@ def main():
 
 
 if __name__ == "__main__":
-    main()
+    # the regenerated table (lean/Cog/Gen/MapRangeSites.lean), sites.json and the generated
+    # pipeline configurations are shared state: two C03 runs (e.g. against different VERIF_REPO
+    # copies) must not interleave
+    with Lock("c03-check"):
+        main()
